@@ -459,10 +459,16 @@ def lookupMod (m : Mods) (i : Nat) : Option Cell :=
   | [] => none
   | (j, v) :: rest => if j = i then some v else lookupMod rest i
 
+/-- the new value of column `i`: the modification if there is one, the old value otherwise -/
+def newCell (m : Mods) (i : Nat) (v : Cell) : Cell :=
+  match lookupMod m i with
+  | some nv => nv
+  | none => v
+
 /-- `compute_values`: the values of the new version -/
 def applyMods (m : Mods) : Nat → List Cell → List Cell
   | _, [] => []
-  | i, v :: vs => (match lookupMod m i with | some nv => nv | none => v) :: applyMods m (i + 1) vs
+  | i, v :: vs => newCell m i v :: applyMods m (i + 1) vs
 
 /-- `compute_values`: the touched columns, ascending -/
 def changedIdx (m : Mods) : Nat → List Cell → List Nat
